@@ -5,7 +5,7 @@ import re
 import shutil
 import vlib
 
-PROPS = ['Rangers.Props.C15Shape', 'Rangers.Props.C15', 'Rangers.Props.C15B', 'Rangers.Props.C15Crypto', 'Rangers.Props.C15Life']
+PROPS = ['Rangers.Props.C15Shape', 'Rangers.Props.C15', 'Rangers.Props.C15B', 'Rangers.Props.C15Crypto', 'Rangers.Props.C15Life', 'Rangers.Props.C15Wire']
 DRIVERS = ['C15']
 META = dict(
     level='proof',
